@@ -11,7 +11,7 @@
 (* and the same actions driven by a nondeterministic environment are model *)
 (* checked for the listed properties (MC_* configurations).                *)
 (***************************************************************************)
-EXTENDS Naturals, Integers, Sequences, FiniteSets, TLC
+EXTENDS Naturals, Integers, Sequences, FiniteSets, TLC, FsOps
 
 CONSTANTS
   NS,        \* sessions are 1..NS
@@ -38,68 +38,6 @@ vars == <<tree, ss, uused, used, pool, table, srv, now>>
 Sessions == 1..NS
 NoPath == <<"~">>
 NoArg  == [abs |-> FALSE, segs |-> <<>>]
-
------------------------------------------------------------------------------
-(* Paths and the tree *)
-
-IsPrefix(p, q) == Len(p) <= Len(q) /\ SubSeq(q, 1, Len(p)) = p
-Parent(p) == IF p = <<>> THEN <<>> ELSE SubSeq(p, 1, Len(p) - 1)
-
-RECURSIVE Fold(_, _)
-Fold(acc, segs) ==
-  IF segs = <<>> THEN acc
-  ELSE LET x == Head(segs) IN
-       Fold(IF x = ".." THEN Parent(acc)
-            ELSE IF x \in {".", ""} THEN acc ELSE Append(acc, x), Tail(segs))
-Resolve(cwd, arg) == Fold(IF arg.abs THEN <<>> ELSE cwd, arg.segs)
-
-IsDirT(t, p)  == p = <<>> \/ p \in t.d
-IsFileT(t, p) == p \in DOMAIN t.f
-ExistsT(t, p) == IsDirT(t, p) \/ IsFileT(t, p)
-NodesT(t) == t.d \cup DOMAIN t.f
-ChildrenT(t, p) == {q \in NodesT(t) : Len(q) = Len(p) + 1 /\ IsPrefix(p, q)}
-Prefixes(p) == {SubSeq(p, 1, i) : i \in 0..Len(p)}
-ThroughFile(t, p) == \E q \in Prefixes(p) : q # p /\ IsFileT(t, q)
-
-Restrict(f, S) == [x \in S |-> f[x]]
-PutFile(t, p, c) == [t EXCEPT !.f = [x \in DOMAIN t.f \cup {p} |-> IF x = p THEN c ELSE t.f[x]]]
-
-Zeros(n) == [i \in 1..n |-> 0]
-Overlay(c, pos, data) ==     \* write data at 0-based position pos, zero-filling a gap
-  LET base == IF pos > Len(c) THEN c \o Zeros(pos - Len(c)) ELSE c
-      e == pos + Len(data)
-  IN  SubSeq(base, 1, pos) \o data \o (IF e < Len(base) THEN SubSeq(base, e + 1, Len(base)) ELSE <<>>)
-
-(* storage contract: when does a mutation fail, and what does it do *)
-MkdirOk(t, p)  == ~ExistsT(t, p) /\ ~ThroughFile(t, p)          \* parents = TRUE
-MkdirDo(t, p)  == [t EXCEPT !.d = t.d \cup (Prefixes(p) \ {<<>>})]
-RmdirOk(t, p)  == p # <<>> /\ p \in t.d /\ ChildrenT(t, p) = {}
-RmdirDo(t, p)  == [t EXCEPT !.d = t.d \ {p}]
-UnlinkOk(t, p) == IsFileT(t, p)
-UnlinkDo(t, p) == [t EXCEPT !.f = Restrict(t.f, DOMAIN t.f \ {p})]
-RenameOk(t, a, b) == /\ ExistsT(t, a) /\ a # <<>> /\ b # <<>>
-                     /\ IsDirT(t, Parent(b))
-                     /\ ~(IsPrefix(a, b) /\ a # b)
-                     /\ (ExistsT(t, b) /\ a # b =>
-                           \/ IsFileT(t, a) /\ IsFileT(t, b)
-                           \/ IsDirT(t, a) /\ IsDirT(t, b) /\ ChildrenT(t, b) = {})
-Move(a, b, q) == b \o SubSeq(q, Len(a) + 1, Len(q))
-RenameDo(t, a, b) ==
-  IF a = b THEN t ELSE
-  LET md == {q \in t.d : IsPrefix(a, q)}
-      mf == {q \in DOMAIN t.f : IsPrefix(a, q)}
-      kd == (t.d \ md) \ {b}
-      kf == (DOMAIN t.f \ mf) \ {b}
-      nd == {Move(a, b, q) : q \in md}
-      nf == {Move(a, b, q) : q \in mf}
-  IN [d |-> kd \cup nd,
-      f |-> [x \in kf \cup nf |-> IF x \in nf THEN t.f[CHOOSE q \in mf : Move(a, b, q) = x] ELSE t.f[x]]]
-OpenOk(t, p, mode) ==
-  IF mode \in {"rb", "r+b"} THEN IsFileT(t, p)
-  ELSE ~IsDirT(t, p) /\ IsDirT(t, Parent(p)) /\ p # <<>>
-OpenDo(t, p, mode) ==
-  IF mode = "wb" THEN PutFile(t, p, <<>>)
-  ELSE IF mode = "ab" /\ ~IsFileT(t, p) THEN PutFile(t, p, <<>>) ELSE t
 
 -----------------------------------------------------------------------------
 (* Users and permissions *)
